@@ -2363,3 +2363,7 @@ mod tests {
         assert_eq!(buf, [0x80, 1, 0, 0, 0x80, 0, 0, 0]);
     }
 }
+
+#[cfg(all(test, feature = "pendulum_project_ntpd_rs_verif"))]
+#[path = "../../../../verif/harness/ntp_proto/nts_messages.rs"]
+mod verif_nts_messages;
